@@ -6,7 +6,8 @@
    API calls made while it is not running (ScheduleIdle | RemoveIdle | EntriesIdle | StopIdle |
    StartNoop), job returns (JobRet), looks at Stop's contexts (CtxPoll), clock readings taken
    while the loop is parked with its timer pending (Tick c), and the returns of Remove / Stop
-   calls to their callers (RemoveRet id, StopRet).  [wf next (init t0) h = true]: every
+   calls to their callers (RemoveRet id, StopRet), and clock readings taken while a tick carrying
+   an older value is still in flight (Lag c: a busy host; the following Wake w has w <= c).  [wf next (init t0) h = true]: every
    event is enabled in the state it meets and the environment behaves (clock never backwards, a
    timer never fires before its instant, a Tick reads a time before the pending timer's instant).
    [run next (init t0) h = Some s]: the state after [h].  [starts s] is the ghost list of every
@@ -71,29 +72,59 @@ Theorem C05_none_skipped : forall (sched : Type) (next : sched -> Z -> option Z)
 Proof. exact none_skipped_wake. Qed.
 Print Assumptions C05_none_skipped.
 
-(* None skipped (2): whenever a running scheduler is parked with its timer pending and the clock
-   reads [c], every live entry's pending activation is still ahead of [c] — no activation instant
-   the clock has reached is waiting without a wake-up. *)
+(* None skipped (2): whenever the scheduler is parked with its timer pending and the clock reads
+   [c], and that timer is on time (not later than any pending activation - see C05_timer_exact /
+   C05_timer_kept for when it is), every live entry's pending activation is still ahead of [c]:
+   no activation instant the clock has reached is waiting without a wake-up. *)
 Theorem C05_none_skipped_tick : forall (sched : Type) (next : sched -> Z -> option Z),
-  (forall s t u, next s t = Some u -> t < u) ->
   forall t0 h c s,
-  wf next (init t0) (h ++ [Tick c]) = true -> run next (init t0) h = Some s -> running s = true ->
+  wf next (init t0) (h ++ [Tick c]) = true -> run next (init t0) h = Some s ->
+  (forall e n, In e (entries s) -> enxt e = Some n -> exists T, timer s = Some T /\ T <= n) ->
   forall e n, In e (entries s) -> enxt e = Some n -> c < n.
 Proof. exact none_skipped_tick. Qed.
 Print Assumptions C05_none_skipped_tick.
 
-(* The armed timer is the minimum: while running, the timer's instant is the pending activation of
-   some live entry and no live entry has an earlier one (no timer iff no entry has a pending
-   activation); while not running no timer is armed. *)
+(* The armed timer, always: while running, a timer is armed iff some entry has a pending
+   activation, and it is never EARLIER than the earliest pending activation; while not running no
+   timer is armed. *)
 Theorem C05_timer_is_min : forall (sched : Type) (next : sched -> Z -> option Z),
   (forall s t u, next s t = Some u -> t < u) ->
   forall t0 h s, wf next (init t0) h = true -> run next (init t0) h = Some s ->
   if running s
-  then (forall e n, In e (entries s) -> enxt e = Some n -> exists T, timer s = Some T /\ T <= n) /\
-       (forall T, timer s = Some T -> exists e, In e (entries s) /\ enxt e = Some T)
+  then (forall e n, In e (entries s) -> enxt e = Some n -> exists T, timer s = Some T) /\
+       (forall T, timer s = Some T ->
+          exists e n, In e (entries s) /\ enxt e = Some n /\ n <= T /\
+                      forall e' n', In e' (entries s) -> enxt e' = Some n' -> n <= n')
   else timer s = None.
 Proof. exact timer_is_min. Qed.
 Print Assumptions C05_timer_is_min.
+
+(* The armed timer is EXACTLY the minimum pending activation after Start, Added, Removed and after
+   every wake-up whose tick value [w] is not older than the clock reading (the normal case; a
+   wake-up handed an older value on a busy host arms its timer late by that lag: event Lag). *)
+Theorem C05_timer_exact : forall (sched : Type) (next : sched -> Z -> option Z),
+  (forall s t u, next s t = Some u -> t < u) ->
+  forall t0 h ev s s',
+  wf next (init t0) (h ++ [ev]) = true ->
+  run next (init t0) h = Some s -> run next (init t0) (h ++ [ev]) = Some s' ->
+  ((exists t, ev = Start t) \/ (exists t sc, ev = Added t sc) \/ (exists t id, ev = Removed t id) \/
+   (exists w, ev = Wake w /\ clk s <= w)) ->
+  (forall e n, In e (entries s') -> enxt e = Some n -> exists T, timer s' = Some T /\ T <= n) /\
+  (forall T, timer s' = Some T -> exists e, In e (entries s') /\ enxt e = Some T).
+Proof. exact timer_exact. Qed.
+Print Assumptions C05_timer_exact.
+
+(* ... and neither the timer nor the entries change through snapshots, no-op Starts, context
+   polls, job returns, returns of Remove calls and clock readings. *)
+Theorem C05_timer_kept : forall (sched : Type) (next : sched -> Z -> option Z),
+  (forall s t u, next s t = Some u -> t < u) ->
+  forall t0 h ev s s' o,
+  wf next (init t0) h = true -> run next (init t0) h = Some s -> step next s ev = Some (s', o) ->
+  (ev = Snapshot \/ ev = StartNoop \/ ev = CtxPoll \/ ev = JobRet \/ (exists id, ev = RemoveRet id) \/
+   (exists c, ev = Tick c) \/ (exists c, ev = Lag c)) ->
+  entries s' = entries s /\ timer s' = timer s.
+Proof. exact timer_kept. Qed.
+Print Assumptions C05_timer_kept.
 
 (* Independence ("whatever other entries are added or removed meanwhile"): for an entry created by
    event [ev] (Schedule while running or idle), as long as it is live its schedule is the one it
@@ -231,7 +262,8 @@ Print Assumptions C05_restart_skips.
    (each wake-up starts exactly the set of due entries, each at or after its activation; parked
    clock readings find no reached activation; snapshots, contexts, fresh ids as specified; an entry
    whose Remove call has returned is neither started nor listed; nothing starts after a Stop call
-   has returned).
+   has returned; the parked-clock clause is waived only while the last wake-up was handed a tick
+   value older than the clock reading).
    Holds for ANY schedule function, even one that violates "later than the given time". *)
 Theorem C05_model_meets_spec : forall (sched : Type) (next : sched -> Z -> option Z),
   forall t0 h, wf next (init t0) h = true -> spec_ok next (trace next (init t0) h).
